@@ -122,7 +122,7 @@ package cache
 //@ func (*Target).gnmiRemove
 //@   props C02 C03 C12 C14 C15
 //@   requires TargetWf(t) && NotiWf(n) && len(n.Delete) >= 1 && n.Prefix != nil && n.Prefix.Target != "" && StoredWf(t) && CountersRegistered()
-//@   modifies ghost tstore, ghost treal, ghost intAdded
+//@   modifies ghost tstore, ghost treal, ghost intAdded, ghost resetDone
 //@   effect owed := owed ++ view(res0)
 //@   effect delSteps := delSteps + 1
 //@   ensures [conditional-delete C02 C03] forall k PKey :: tstore[t.t][k] == ite(old(tstore[t.t][k]) != nil && pmatch(pkey(JPD(n)), k)
@@ -184,26 +184,30 @@ package cache
 //@   props C03 C12 C14 C15 C02
 //@   requires TargetWf(t) && NotiWf(n) && n.Prefix != nil && n.Prefix.Target != "" && StoredWf(t) && CountersRegistered() && AllTVWf()
 //@   requires len(owed) == 0 && Unstored(n)
-//@   modifies ghost tstore, ghost treal, ghost intAdded, ghost owed, ghost tsSeen, ghost updSteps, ghost delSteps, ghost wiped, heap(ctree.Tree.leafBranch), t.sync, t.ts, n.Update, n.Delete
-//@   invariant 0: len(owed) == 0 && StoredWf(t) && n.Update == nil && n.Delete == nil && InputsWf(updates, deletes)
+//@   modifies ghost tstore, ghost treal, ghost intAdded, ghost owed, ghost tsSeen, ghost updSteps, ghost delSteps, ghost wiped, ghost resetDone, heap(ctree.Tree.leafBranch), t.sync, t.ts, n.Update, n.Delete
+//@   invariant 0: OthersKept(t) && len(owed) == 0 && StoredWf(t) && n.Update == nil && n.Delete == nil && InputsWf(updates, deletes)
 //@     && updates == old(n.Update) && deletes == old(n.Delete) && updSteps == old(updSteps) + $i && delSteps == old(delSteps) && 0 <= $i && $i <= len(updates)
-//@   invariant 1: len(owed) == 0 && StoredWf(t) && n.Update == nil && n.Delete == nil && InputsWf(updates, deletes)
+//@   invariant 1: OthersKept(t) && len(owed) == 0 && StoredWf(t) && n.Update == nil && n.Delete == nil && InputsWf(updates, deletes)
 //@     && updates == old(n.Update) && deletes == old(n.Delete) && updSteps == old(updSteps) + len(updates) && delSteps == old(delSteps) + $i && 0 <= $i && $i <= len(deletes)
-//@   invariant 2: StoredWf(t) && n.Update == nil && n.Delete == nil && InputsWf(updates, deletes) && Owing($range, $i)
+//@   invariant 2: OthersKept(t) && StoredWf(t) && n.Update == nil && n.Delete == nil && InputsWf(updates, deletes) && Owing($range, $i)
 //@     && updates == old(n.Update) && deletes == old(n.Delete) && updSteps == old(updSteps) + len(updates) && delSteps == old(delSteps) + $i1 + 1 && 0 <= $i1 && $i1 < len(deletes)
-//@   invariant 3: StoredWf(t) && Owing($range, $i) && updSteps == old(updSteps) && delSteps == old(delSteps) + 1
+//@   invariant 3: OthersKept(t) && StoredWf(t) && Owing($range, $i) && updSteps == old(updSteps) && delSteps == old(delSteps) + 1
 //@   ensures [updates-then-deletes C03] !n.Atomic ==> updSteps == old(updSteps) + old(len(n.Update)) && delSteps == old(delSteps) + old(len(n.Delete))
 //@   ensures [atomic-is-one-step C03] n.Atomic && len(n.Delete) == 0 ==> updSteps == old(updSteps) + ite(len(n.Update) > 0, 1, 0) && delSteps == old(delSteps)
 //@   ensures [ts-advanced-on-accept C15] old(GuardTS(n)) && old(Single(n)) && res0 == nil ==> tsSeen[t] >= n.Timestamp
 //@   ensures [ts-untouched-on-reject C15 C02] old(Single(n)) && res0 != nil ==> tsSeen == old(tsSeen)
 //@   ensures [latest-timestamp-any-path C15] old(Single(n)) && old(Real(n)) && res0 == nil ==> tsSeen[t] >= n.Timestamp
+//@   ensures [other-targets-untouched C14] OthersKept(t)
 //@   ensures [all-announced C03] len(owed) == 0
 //@   ensures [input-restored C03] n.Update == old(n.Update) && n.Delete == old(n.Delete)
 //@   ensures [stored-wf] StoredWf(t)
 
 // ---- Cache: the target map is only touched under Cache.mu -------------------
 //@ monitor Cache.mu protects targets, client invariant CacheInv
-//@ pred CacheInv(c *Cache) := c.targets != nil
+// Every registered target is a well-formed object filed under its own (non-empty) name.
+//@ pred CacheInv(c *Cache) := c.targets != nil && c.client != nil && Now != nil
+//@   && (forall k string :: has(c.targets, k) ==> c.targets[k] != nil)
+//@   && (forall k string :: c.targets[k] != nil ==> TargetWf(c.targets[k]) && c.targets[k].name == k && k != "")
 
 //@ func (*Cache).HasTarget
 //@   props C14 C12
@@ -333,3 +337,71 @@ package cache
 //@   ensures [other-targets-untouched C14] OthersKept(t) && (forall s string :: s != t.name ==> wiped[s] == old(wiped[s]))
 //@   ensures [all-announced C03] len(owed) == 0
 //@   ensures StoredWf(t)
+
+// ---- Cache-level entry points (C14) -------------------------------------------
+// Package invariant, preserved per target by every writer above (gnmiUpdate,
+// gnmiRemove, GnmiUpdate, Reset) and assumed here for all targets at once.
+//@ pred AllStoredWf() := forall t *Target :: t != nil ==> StoredWf(t)
+//@ pred Globals() := CountersRegistered() && AllTVWf() && AllStoredWf()
+
+// The feed callback registered with the cache (the same function Target.client holds).
+//@ func field Cache.client (l)
+//@   requires l != nil
+//@   effect wiped := WipedAfter(l)
+//@   note the feed callback is assumed not to modify cache, tree or metadata state
+
+//@ func (*Cache).Remove
+//@   props C14 C12
+//@   locks c
+//@   requires c != nil
+//@   modifies ghost wiped
+//@   ensures [unknown-afterwards C14] c.targets[target] == nil && !has(c.targets, target)
+//@   ensures [others-kept C14] forall k string :: k != target ==> c.targets[k] == old(c.targets[k]) && (has(c.targets, k) <==> old(has(c.targets, k)))
+//@   ensures [whole-target-delete-announced C14] has(wiped[target], "")
+//@   ensures [only-this-target-announced C14] forall s string :: s != target ==> wiped[s] == old(wiped[s])
+
+//@ func (*Cache).Add
+//@   props C14 C12
+//@   locks c
+//@   requires c != nil && target != ""
+//@   modifies ghost resetDone
+//@   ensures [registered C14] res0 != nil && fresh(res0) && c.targets[target] == res0 && res0.name == target
+//@   ensures [own-tree-and-metadata C14] res0.t != nil && fresh(res0.t) && res0.meta != nil && fresh(res0.meta)
+//@   ensures [others-kept C14] forall k string :: k != target ==> c.targets[k] == old(c.targets[k]) && (has(c.targets, k) <==> old(has(c.targets, k)))
+
+//@ func (*Cache).Reset
+//@   props C14 C12
+//@   locks c
+//@   requires c != nil && Globals() && len(owed) == 0
+//@   modifies ghost tstore, ghost treal, ghost intAdded, ghost owed, ghost updSteps, ghost wiped, ghost resetDone, heap(ctree.Tree.leafBranch), heap(Target.sync), heap(Target.ts)
+//@   assert at call (*Target).Reset#0: [addressed-target-only C14] arg0 == c.targets[target]
+//@   ensures [other-targets-untouched C14] forall u ref :: c.targets[target] == nil || u != c.targets[target].t ==> tstore[u] == old(tstore[u]) && treal[u] == old(treal[u])
+//@   ensures [only-this-target-announced C14] forall s string :: s != target ==> wiped[s] == old(wiped[s])
+
+//@ func (*Cache).GnmiUpdate
+//@   props C14 C03 C12
+//@   locks c
+//@   requires c != nil && Globals() && len(owed) == 0 && (n != nil ==> NotiWf(n) && Unstored(n))
+//@   modifies ghost tstore, ghost treal, ghost intAdded, ghost owed, ghost tsSeen, ghost updSteps, ghost delSteps, ghost wiped, ghost resetDone, heap(ctree.Tree.leafBranch), heap(Target.sync), heap(Target.ts), n.Update, n.Delete
+//@   assert at call (*Target).GnmiUpdate#0: [addressed-target-only C14] arg0 == c.targets[n.Prefix.Target] && arg0 != nil
+//@   ensures [nil-refused] n == nil ==> res0 != nil
+//@   ensures [unknown-target-refused C14] n != nil && (n.Prefix == nil || c.targets[n.Prefix.Target] == nil) ==> res0 != nil && tstore == old(tstore)
+//@   ensures [other-targets-untouched C14] n != nil && n.Prefix != nil && c.targets[n.Prefix.Target] != nil ==>
+//@     (forall u ref :: u != c.targets[n.Prefix.Target].t ==> tstore[u] == old(tstore[u]) && treal[u] == old(treal[u]))
+
+// The visitor handed to Query (the Subscribe server's, or a test's) is assumed not to write cache state.
+//@ func param fn in (*Cache).Query (p, l, v)
+//@   requires l != nil
+//@   note the query visitor is assumed not to modify cache, tree or metadata state
+
+//@ func (*Cache).Query
+//@   props C14 C12
+//@   locks c
+//@   requires c != nil && fn != nil
+//@   modifies ghost queried
+//@   assert at call (*Tree).Query#1: [addressed-target-only C14] arg0 == c.targets[target].t
+//@   invariant 0: (forall k string :: has($visited, k) ==> has(queried, c.targets[k].t)) && (forall u ref :: has(queried, u) && !old(has(queried, u)) ==> (exists k string :: has(c.targets, k) && c.targets[k].t == u))
+//@   ensures [empty-target-refused C14] target == "" ==> res0 != nil && queried == old(queried)
+//@   ensures [unknown-target-refused C14] target != "" && target != "*" && c.targets[target] == nil ==> res0 != nil && queried == old(queried)
+//@   ensures [all-targets C14] target == "*" && res0 == nil ==> (forall k string :: has(c.targets, k) ==> has(queried, c.targets[k].t))
+//@   ensures [only-the-addressed-tree C14] target != "*" ==> (forall u ref :: has(queried, u) && !old(has(queried, u)) ==> c.targets[target] != nil && u == c.targets[target].t)
